@@ -52,10 +52,10 @@ func (in *Interp) eval(e ast.Expr, st *State) []ev {
 	case *ast.ParenExpr:
 		return in.eval(x.X, st)
 	case *ast.BasicLit:
-		return one(st, Sym{x.Value})
+		return one(st, Sym{Name: x.Value})
 	case *ast.Ident:
 		if x.Name == "_" {
-			return one(st, Sym{"_"})
+			return one(st, Sym{Name: "_"})
 		}
 		o := info.Uses[x]
 		if o == nil {
@@ -80,15 +80,15 @@ func (in *Interp) eval(e ast.Expr, st *State) []ev {
 			if ob.Pkg() != nil && ob.Parent() == ob.Pkg().Scope() {
 				name = ob.Pkg().Name() + "." + name
 			}
-			return one(st, Sym{name})
+			return one(st, Sym{Name: name})
 		case *types.Func:
-			return one(st, Sym{"func:" + ob.FullName()})
+			return one(st, Sym{Name: "func:" + ob.FullName()})
 		case *types.Builtin:
-			return one(st, Sym{"builtin:" + ob.Name()})
+			return one(st, Sym{Name: "builtin:" + ob.Name()})
 		case *types.TypeName:
-			return one(st, Sym{"type:" + ob.Name()})
+			return one(st, Sym{Name: "type:" + ob.Name()})
 		}
-		return one(st, Sym{x.Name})
+		return one(st, Sym{Name: x.Name})
 	case *ast.FuncLit:
 		return one(st, Closure{Lit: x, Name: fmt.Sprintf("lit@%d", x.Pos())})
 	case *ast.SelectorExpr:
@@ -105,11 +105,11 @@ func (in *Interp) eval(e ast.Expr, st *State) []ev {
 							return one(st, v)
 						}
 					}
-					return one(st, Sym{id.Name + "." + x.Sel.Name})
+					return one(st, Sym{Name: id.Name + "." + x.Sel.Name})
 				case *types.Func:
-					return one(st, Sym{"func:" + ob.FullName()})
+					return one(st, Sym{Name: "func:" + ob.FullName()})
 				}
-				return one(st, Sym{id.Name + "." + x.Sel.Name})
+				return one(st, Sym{Name: id.Name + "." + x.Sel.Name})
 			}
 		}
 		var out []ev
@@ -126,7 +126,7 @@ func (in *Interp) eval(e ast.Expr, st *State) []ev {
 			case ptrTo:
 				out = append(out, ev{b.st, v.load(b.st)})
 			default:
-				out = append(out, ev{b.st, Sym{"*" + b.v.Canon()}})
+				out = append(out, ev{b.st, Sym{Name: "*" + b.v.Canon()}})
 			}
 		}
 		return out
@@ -144,7 +144,7 @@ func (in *Interp) eval(e ast.Expr, st *State) []ev {
 				if c, ok := b.v.(Const); ok {
 					out = append(out, ev{b.st, Const{constant.UnaryOp(token.SUB, c.V, 0)}})
 				} else {
-					out = append(out, ev{b.st, Sym{"(-" + b.v.Canon() + ")"}})
+					out = append(out, ev{b.st, Sym{Name: "(-" + b.v.Canon() + ")"}})
 				}
 			}
 			return out
@@ -159,7 +159,7 @@ func (in *Interp) eval(e ast.Expr, st *State) []ev {
 					if r, ok := b.v.(Ref); ok {
 						out = append(out, ev{b.st, ptrTo{ref: r, field: inner.Sel.Name}})
 					} else {
-						out = append(out, ev{b.st, Sym{"&" + b.v.Canon() + "." + inner.Sel.Name}})
+						out = append(out, ev{b.st, Sym{Name: "&" + b.v.Canon() + "." + inner.Sel.Name}})
 					}
 				}
 				return out
@@ -175,14 +175,14 @@ func (in *Interp) eval(e ast.Expr, st *State) []ev {
 			}
 			var out []ev
 			for _, b := range in.eval(x.X, st) {
-				out = append(out, ev{b.st, Sym{"&" + b.v.Canon()}})
+				out = append(out, ev{b.st, Sym{Name: "&" + b.v.Canon()}})
 			}
 			return out
 		case token.ARROW:
 			var out []ev
 			for _, b := range in.eval(x.X, st) {
 				b.st.Emit("recv "+core.ExprStr(x.X), x.Pos())
-				out = append(out, ev{b.st, Sym{"<-" + b.v.Canon()}})
+				out = append(out, ev{b.st, Sym{Name: "<-" + b.v.Canon()}})
 			}
 			return out
 		}
@@ -216,7 +216,7 @@ func (in *Interp) eval(e ast.Expr, st *State) []ev {
 	case *ast.SliceExpr:
 		var out []ev
 		for _, b := range in.eval(x.X, st) {
-			out = append(out, ev{b.st, Sym{b.v.Canon() + "[" + core.ExprStr(x.Low) + ":" + core.ExprStr(x.High) + "]"}})
+			out = append(out, ev{b.st, Sym{Name: b.v.Canon() + "[" + core.ExprStr(x.Low) + ":" + core.ExprStr(x.High) + "]"}})
 		}
 		return out
 	case *ast.CompositeLit:
@@ -237,7 +237,7 @@ func (in *Interp) eval(e ast.Expr, st *State) []ev {
 	case *ast.KeyValueExpr:
 		return in.eval(x.Value, st)
 	case *ast.ArrayType, *ast.MapType, *ast.ChanType, *ast.FuncType, *ast.StructType, *ast.InterfaceType:
-		return one(st, Sym{"type:" + core.ExprStr(x)})
+		return one(st, Sym{Name: "type:" + core.ExprStr(x)})
 	}
 	in.undecided(e.Pos(), "unsupported expression %T", e)
 	return nil
@@ -262,14 +262,14 @@ func (p ptrTo) load(st *State) Val {
 		if v, ok := st.env[p.obj]; ok {
 			return v
 		}
-		return Sym{p.obj.Name()}
+		return Sym{Name: p.obj.Name()}
 	}
 	if ob := st.heap[p.ref.ID]; ob != nil {
 		if v, ok := ob.Fields[p.field]; ok {
 			return v
 		}
 	}
-	return Sym{"*" + p.Canon()}
+	return Sym{Name: "*" + p.Canon()}
 }
 
 func (in *Interp) field(st *State, base Val, sel string, at ast.Node) Val {
@@ -297,7 +297,7 @@ func (in *Interp) field(st *State, base Val, sel string, at ast.Node) Val {
 			}
 		}
 		// method value or unknown field of a tracked object
-		return Sym{b.Canon() + "." + sel}
+		return Sym{Name: b.Canon() + "." + sel}
 	case ptrTo:
 		return in.field(st, b.load(st), sel, at)
 	}
@@ -306,7 +306,7 @@ func (in *Interp) field(st *State, base Val, sel string, at ast.Node) Val {
 			return v
 		}
 	}
-	return Sym{base.Canon() + "." + sel}
+	return Sym{Name: base.Canon() + "." + sel}
 }
 
 func (in *Interp) index(st *State, x, i Val) Val {
@@ -320,7 +320,7 @@ func (in *Interp) index(st *State, x, i Val) Val {
 			return l.Elems[k]
 		}
 	}
-	return Sym{x.Canon() + "[" + i.Canon() + "]"}
+	return Sym{Name: x.Canon() + "[" + i.Canon() + "]"}
 }
 
 func (in *Interp) composite(x *ast.CompositeLit, st *State) []ev {
@@ -377,7 +377,7 @@ func (in *Interp) composite(x *ast.CompositeLit, st *State) []ev {
 		}
 		return out
 	case *types.Map:
-		return one(st, Sym{"map@" + fmt.Sprint(x.Pos())})
+		return one(st, Sym{Name: "map@" + fmt.Sprint(x.Pos())})
 	}
 	in.undecided(x.Pos(), "composite literal of %s", t)
 	return nil
@@ -498,6 +498,12 @@ func (in *Interp) decideEq(st *State, l, r Val, pos token.Pos) []condRes {
 	if (ln && rok) || (rn && lok) {
 		return []condRes{{st, false}}
 	}
+	if ls, ok := l.(Sym); ok && ls.NotNil && rn {
+		return []condRes{{st, false}}
+	}
+	if rs, ok := r.(Sym); ok && rs.NotNil && ln {
+		return []condRes{{st, false}}
+	}
 	a, b := l.Canon(), r.Canon()
 	if a == b {
 		// x == x holds except for NaN: a rule that models NaN answers this atom itself
@@ -568,7 +574,7 @@ func (in *Interp) arith(st *State, op token.Token, l, r Val, pos token.Pos) Val 
 		}()
 		if op == token.QUO && lc.V.Kind() == constant.Int && rc.V.Kind() == constant.Int {
 			if constant.Sign(rc.V) == 0 {
-				return Sym{"div0"}
+				return Sym{Name: "div0"}
 			}
 			return Const{constant.BinaryOp(lc.V, token.QUO_ASSIGN, rc.V)}
 		}
@@ -578,7 +584,7 @@ func (in *Interp) arith(st *State, op token.Token, l, r Val, pos token.Pos) Val 
 		}
 		return Const{constant.BinaryOp(lc.V, op, rc.V)}
 	}
-	return Sym{"(" + l.Canon() + " " + op.String() + " " + r.Canon() + ")"}
+	return Sym{Name: "(" + l.Canon() + " " + op.String() + " " + r.Canon() + ")"}
 }
 
 // ---------------------------------------------------------------------------
@@ -622,7 +628,7 @@ func (in *Interp) assign(lhs, rhs []ast.Expr, tok token.Token, st *State, pos to
 		case *ast.IndexExpr, *ast.UnaryExpr:
 			for _, b := range in.eval(rhs[0], st) {
 				in.store(lhs[0], b.v, b.st)
-				in.store(lhs[1], Sym{"ok:" + b.v.Canon()}, b.st)
+				in.store(lhs[1], Sym{Name: "ok:" + b.v.Canon()}, b.st)
 				out = append(out, b.st)
 			}
 			return out
@@ -791,7 +797,7 @@ func (in *Interp) apply(x *ast.CallExpr, callee string, obj types.Object, recv V
 			if _, ok := args[0].(Nil); ok {
 				return one(st, Int(0))
 			}
-			return one(st, Sym{b.Name() + "(" + args[0].Canon() + ")"})
+			return one(st, Sym{Name: b.Name() + "(" + args[0].Canon() + ")"})
 		case "append":
 			if l, ok := args[0].(List); ok {
 				return one(st, List{append(append([]Val(nil), l.Elems...), args[1:]...)})
@@ -800,16 +806,16 @@ func (in *Interp) apply(x *ast.CallExpr, callee string, obj types.Object, recv V
 				return one(st, List{append([]Val(nil), args[1:]...)})
 			}
 			st.Emit("append "+args[0].Canon(), x.Pos(), args[1:]...)
-			return one(st, Sym{"append(" + args[0].Canon() + ",…)"})
+			return one(st, Sym{Name: "append(" + args[0].Canon() + ",…)"})
 		case "make":
-			return one(st, Sym{fmt.Sprintf("make@%d", x.Pos())})
+			return one(st, Sym{Name: fmt.Sprintf("make@%d", x.Pos())})
 		case "new":
-			return one(st, Sym{fmt.Sprintf("new@%d", x.Pos())})
+			return one(st, Sym{Name: fmt.Sprintf("new@%d", x.Pos())})
 		case "copy", "delete", "close", "print", "println":
 			st.Emit(b.Name(), x.Pos(), args...)
-			return one(st, Sym{b.Name()})
+			return one(st, Sym{Name: b.Name()})
 		case "min", "max":
-			return one(st, Sym{b.Name() + "(" + canonList(args) + ")"})
+			return one(st, Sym{Name: b.Name() + "(" + canonList(args) + ")"})
 		}
 	}
 	// local closure
@@ -843,7 +849,7 @@ func (in *Interp) apply(x *ast.CallExpr, callee string, obj types.Object, recv V
 			if core.IsErrorType(tup.At(i).Type()) && in.ErrorsNil {
 				elems[i] = Nil{}
 			} else {
-				elems[i] = Sym{fmt.Sprintf("%s.%d", name, i)}
+				elems[i] = Sym{Name: fmt.Sprintf("%s.%d", name, i)}
 			}
 		}
 		return one(st, Tuple{elems})
@@ -851,7 +857,7 @@ func (in *Interp) apply(x *ast.CallExpr, callee string, obj types.Object, recv V
 	if tv.Type != nil && core.IsErrorType(tv.Type) && in.ErrorsNil {
 		return one(st, Nil{})
 	}
-	return one(st, Sym{name})
+	return one(st, Sym{Name: name})
 }
 
 func canonList(vs []Val) string {
@@ -912,7 +918,7 @@ func (in *Interp) inline(ft *ast.FuncType, recvFL *ast.FieldList, body *ast.Bloc
 			}
 			switch len(vals) {
 			case 0:
-				out = append(out, ev{r.st, Sym{"void"}})
+				out = append(out, ev{r.st, Sym{Name: "void"}})
 			case 1:
 				out = append(out, ev{r.st, vals[0]})
 			default:
